@@ -8,7 +8,7 @@
    [count_r r s] their number, [backlog_of r s] the queue of r, [subm r tr] the confirmable messages handed to
    send_message for r in trace tr, [left r tr] those that left the queue (first transmission [Tx m false] or
    [Dropped m]), [reqs r s] the outstanding requests to r. *)
-From Verif Require Import Lib.Tactics Model.C14 Proofs.C14 Proofs.C14step.
+From Verif Require Import Lib.Py Lib.Tactics Gen.c14_message_id Model.C14 Proofs.C14 Proofs.C14step Proofs.C14req Proofs.C14mid.
 Import ListNotations.
 Open Scope Z_scope.
 
@@ -103,6 +103,19 @@ Theorem C14_other_remotes_untouched : forall s e r, Inv s -> touches s e r = fal
 Proof. exact step_frame. Qed.
 Print Assumptions C14_other_remotes_untouched.
 
+(* ---- on the wire: a confirmable message to a remote that has something outstanding is transmitted for the first
+   time only in a step in which that outstanding exchange is acknowledged or reset *)
+Theorem C14_first_transmission_only_when_idle_or_acked : forall s e r m, Inv s ->
+  In (Tx m false) (snd (step s e)) -> con_to r m = true -> in_backlogs r s = true -> acks s e r = true.
+Proof. exact first_transmission_only_when_idle_or_acked. Qed.
+Print Assumptions C14_first_transmission_only_when_idle_or_acked.
+
+(* ---- ... and the outstanding requests of every other remote stay exactly as they are (none failed, none forgotten) *)
+Theorem C14_requests_to_other_remotes_untouched : forall s e r, Inv s -> touches s e r = false -> (forall q, e <> Cancel q) ->
+  reqs r (fst (step s e)) = reqs r s.
+Proof. exact requests_to_other_remotes_untouched. Qed.
+Print Assumptions C14_requests_to_other_remotes_untouched.
+
 (* ---- eventually: if the peers stay silent, firing the pending timers [measure s] times (one per transmission
    still allowed) ends every exchange and empties every queue; every message that was held back in s has by then
    left its queue (here: been discarded, its request failed by C14_dropped_when_failed).
@@ -113,6 +126,19 @@ Theorem C14_quiesces_when_peers_silent_partial : forall s, Inv s ->
   active_exchanges s' = [] /\ backlogs s' = [] /\ forall r, left r tr = backlog_of r s.
 Proof. exact quiesces_when_peers_silent. Qed.
 Print Assumptions C14_quiesces_when_peers_silent_partial.
+
+(* ---- tie T: the model's message-ID counter is the code of MessageManager._next_message_id as translated from the
+   source on this run (Gen/c14_message_id.v), and 65536 consecutive IDs are pairwise distinct — a queued message
+   never shares its (remote, mid) key with the exchange ahead of it *)
+Theorem C14_next_message_id_is_source : forall s,
+  Gen.c14_message_id.next_message_id {| mmids_message_id := message_id s |} =
+  Ok ({| mmids_message_id := message_id (snd (Model.C14.next_message_id s)) |}, fst (Model.C14.next_message_id s)).
+Proof. exact next_message_id_is_source. Qed.
+Print Assumptions C14_next_message_id_is_source.
+Theorem C14_ids_distinct_within_65536 : forall m j k, 0 <= m < 65536 -> Z.of_nat j < Z.of_nat k < Z.of_nat j + 65536 ->
+  nth_id j m <> nth_id k m.
+Proof. exact ids_distinct_within_65536. Qed.
+Print Assumptions C14_ids_distinct_within_65536.
 
 (* ---- non-vacuity: a reachable state with a queue of two behind an open exchange, on which the hypotheses of the
    step theorems hold for concrete events *)
@@ -133,3 +159,4 @@ Example C14_scenario :
         Fail 2 ConRetransmitsExceeded; Fail 5 ConRetransmitsExceeded;
         Fired 1 2; Tx {| m_sub := Req 4; m_remote := 1; m_mtype := 0; m_code := 1; m_mid := 2; m_tok := 10; m_maxre := 4 |} true].
 Proof. vm_compute. split; reflexivity. Qed.
+
